@@ -65,7 +65,7 @@ theorem chain_sound : ∀ (pre : List Level) {p : OType}, ChainOK (pre ++ p) →
 theorem define_chainOK {env : List OType} {d : Def} {t : OType} (henv : ∀ t' ∈ env, ChainOK t')
     (hnd : (d.attrs.map (·.name)).Nodup) (hcn : (d.constants.map (·.1)).Nodup) (h : define env d = .ok t) :
     ChainOK t := by
-  obtain ⟨-, -, attrs, hattrs, -, -, -, ht⟩ := define_parts h
+  obtain ⟨-, -, attrs, hattrs, -, -, -, -, ht⟩ := define_parts h
   have hparent : ChainOK (parentOf env d) := by
     unfold parentOf
     cases hp : d.parent with
